@@ -14,8 +14,9 @@ byte) and loaded with xknx.secure.keyring.sync_load_keyring:
            password and combined with content mutations - raises InvalidSecureConfiguration;
  password  near-miss passwords raise InvalidSecureConfiguration;
  real      the same four on the six real exports (expected content via the writer's own reader).
- long      attribute values beyond 255 octets (>= 37 senders of one group, long project name): the
-           load succeeds with the written content or raises InvalidSecureConfiguration, nothing else.
+ long      the same oracle for keyrings with signed strings around / beyond 255 UTF-8 octets (Senders
+           lists of 30..80 senders with exact lengths 254..600, project names with multi-byte characters):
+           the length octet of the signature walk is the low octet of the length (ETS; writer wrap=True).
 """
 
 from __future__ import annotations
@@ -56,7 +57,7 @@ RULE = (
 )
 ASSUMPTIONS = [
     "the ETS keyring scheme is the one reproduced by the writer; its canonicalisation, key/password encryption and rendering regenerate the stored Signature, all 85 ciphertexts and the exact bytes of the six real ETS exports (self-test)",
-    "attribute values and names stay <= 255 UTF-8 octets (one-octet length prefix of the signature scheme); passwords <= 23 octets (ETS: 20 characters) in the 32-octet ETS layout",
+    "strings longer than 255 UTF-8 octets contribute the low octet of their length to the signature walk (ETS / byte-stream writers; xknx since e3d29f7); passwords <= 23 octets (ETS: 20 characters) in the 32-octet ETS layout",
     "mutated files stay well-formed XML; the Signature attribute is only replaced by valid base64 (other octets, fewer or more octets, empty) or removed; a keyring without a valid 16-octet signature must be refused with InvalidSecureConfiguration",
     "get_data_secure_senders() is modelled as documented: senders of all interface groups default to 0, devices contribute their SequenceNumber (0 if absent)",
     "PBKDF2 results are memoised around xknx's real hash_keyring_password (pure function) to afford the case count",
@@ -160,14 +161,81 @@ st_case = st.fixed_dictionaries(
 )
 
 
+LONG_TARGETS = [254, 255, 256, 257, 258, 300, 400, 510, 511, 512, 513, 600]
+st_long_len = st.one_of(st.just(0), st.sampled_from(LONG_TARGETS), st.integers(200, 620))
 st_long = st.fixed_dictionaries(
     {
         "long": st.just(True),
         "project": st_project,
-        "n_senders": st.one_of(st.just(0), st.integers(37, 70)),
-        "name_len": st.one_of(st.just(0), st.integers(256, 300)),
+        "perm": st.integers(1, 2**30),
+        "mutations": st.lists(st_mutation, min_size=6, max_size=12),
+        "senders_len": st_long_len,  # exact UTF-8 length of one Senders attribute
+        "senders_n": st.one_of(st.just(0), st.integers(30, 80)),  # or: that many arbitrary senders
+        "name_len": st_long_len,  # exact UTF-8 length of the project name (multi-byte characters inside)
+        "seed": st.integers(0, 10**6),
     }
-).filter(lambda c: c["n_senders"] or c["name_len"])
+).filter(lambda c: c["senders_len"] or c["senders_n"] or c["name_len"])
+
+
+def senders_for_length(target: int, seed: int) -> list[int]:
+    """Unique individual addresses whose space separated text form is exactly `target` octets long."""
+    def ia_of_len(n: int, k: int) -> int:
+        # text lengths: a.l.d with a, l in 0..15 and d in 0..255 -> 5..9 characters
+        area, line, dev = {5: (1, 1, 1), 6: (1, 1, 10), 7: (1, 1, 100), 8: (10, 1, 100), 9: (10, 10, 100)}[n]
+        if n in (5, 6, 7):
+            area, line = 1 + k % 9, 1 + (k // 9) % 9
+            dev = dev + (k // 81) % (9 if n == 5 else 90 if n == 6 else 150)
+        elif n == 8:
+            area, line, dev = 10 + k % 6, 1 + (k // 6) % 9, 100 + (k // 54) % 150
+        else:
+            area, line, dev = 10 + k % 6, 10 + (k // 6) % 6, 100 + (k // 36) % 150
+        return area << 12 | line << 8 | dev
+
+    out: list[int] = []
+    used: set[int] = set()
+    remaining = target + 1  # every sender costs its length + one separator (the first one none)
+    k = seed
+
+    def add(n: int) -> None:
+        nonlocal k, remaining
+        while True:
+            k += 1
+            ia = ia_of_len(n, k)
+            if ia not in used and len(kw.ia_str(ia)) == n:
+                break
+        used.add(ia)
+        out.append(ia)
+        remaining -= n + 1
+
+    if remaining < 6:
+        raise HarnessError("target too short")
+    while remaining > 20:
+        n = 5 + (k + len(out)) % 5
+        if remaining - (n + 1) == 11:
+            n = 5 if n != 5 else 6
+        add(n)
+    if remaining > 10:  # 12..20 (11 is avoided above): split into two admissible lengths
+        first = max(6, remaining - 10)
+        add(first - 1)
+    add(remaining - 1)
+    if remaining != 0 or len(" ".join(kw.ia_str(i) for i in out)) != target:
+        raise HarnessError(f"senders_for_length({target}) produced {len(' '.join(kw.ia_str(i) for i in out))}")
+    return out
+
+
+def name_of_length(base: str, octets: int) -> str:
+    """Project name of exactly `octets` UTF-8 octets containing multi-byte characters."""
+    out, n = [], 0
+    fill = ["ä", "x", "€", " ", "中", "y", "😀", "-"]
+    for c in list(base) + [fill[i % len(fill)] for i in range(octets)]:
+        w = len(c.encode("utf-8"))
+        if n + w > octets:
+            continue
+        out.append(c)
+        n += w
+        if n == octets:
+            break
+    return "".join(out)
 
 
 def resolve(p: dict) -> dict:
@@ -491,10 +559,10 @@ def mutate(root: kw.El, mut, h: bytes):
                 else:  # wrap into a new element
                     parent.children[idx] = kw.El(["Wrapper", parent.name, e.name][c % 3], [], [e])
     try:
-        if kw.canonical(t, h) == kw.canonical(root, h):
+        if kw.canonical(t, h, True) == kw.canonical(root, h, True):
             return None
     except ValueError:
-        return None  # beyond the one-octet length prefix: outside the scheme
+        return None
     return kind, t
 
 
@@ -700,36 +768,37 @@ def oracle(ctx, case: dict) -> None:
 
 
 def check_long(ctx, case: dict) -> None:
-    """Attribute values beyond 255 octets (e.g. a group with >= 37 secure senders).
+    """Signed strings around and beyond 255 octets (a group with >= 37 secure senders, a long project name).
 
-    No real export shows how ETS signs those (a one-octet length is all the scheme has; writers that
-    stream the length emit its low octet), so the file is signed that way and the oracle only demands
-    what holds under every reading: the load either succeeds with exactly the written content or
-    raises InvalidSecureConfiguration - never another exception."""
+    The scheme has one length octet per string; ETS (and every writer that streams the length as an
+    octet) emits the low octet of the length, which is what the reference writer does (wrap=True).
+    Same oracle as for every other keyring: loads with exactly the written content, unsigned changes
+    load identically, tampering / weakened signatures / wrong passwords are refused."""
     p = resolve(case["project"])
-    if case["n_senders"]:
-        senders = [0x1200 + i for i in range(case["n_senders"])]
-        ga = p["groups"][0][0] if p["groups"] else 1
+    seed = int(case.get("seed", 0))
+    lists = []
+    if case.get("senders_len"):
+        lists.append(senders_for_length(int(case["senders_len"]), seed))
+    if case.get("senders_n") or case.get("n_senders"):
+        n = int(case.get("senders_n") or case.get("n_senders"))
+        lists.append([(0x1200 + seed * 7 + i * (1 + seed % 5)) & 0xFFFF for i in range(n)])
+    if lists:
         if not p["interfaces"]:
             p["interfaces"] = [{"type": "Tunneling", "ia": 0x1105, "host": 0x1100, "user_id": 2, "password": "pw", "auth": "auth", "rand": bytes(16), "groups": []}]
-        itf = p["interfaces"][0]
-        itf["groups"] = [[ga, senders]] + [g for g in itf["groups"] if g[0] != ga]
-    if case["name_len"]:
-        p["project"] = (p["project"] + "long project name ") * 20
-        p["project"] = p["project"][: case["name_len"]]
+        pool = [g[0] for g in p["groups"]] + [g for g in (1, 2, 3) if g not in [x[0] for x in p["groups"]]]
+        for i, senders in enumerate(lists):
+            itf = p["interfaces"][i % len(p["interfaces"])]
+            ga = pool[i]
+            itf["groups"] = [[ga, senders]] + [g for g in itf["groups"] if g[0] != ga]
+    if case.get("name_len"):
+        p["project"] = name_of_length(p["project"], int(case["name_len"]))
     root = kw.build_tree(p, wrap=True)
     exp = expected_from_project(p)
-    data = kw.render(root)
-    ctx.case(data, nontrivial=True, cls=["long-attribute", "long:senders" if case["n_senders"] else "long:project-name"],
-             sample={"label": "long", "n_senders": case["n_senders"], "name_len": case["name_len"]})
-    res, val = load(data, p["password"])
-    if res == "exc":
-        ctx.fail(f"C31:long-attribute:exc:{exc_site(val)}", case, "".join(traceback.format_exception_only(type(val), val)))
-    elif res == "ok":
-        ctx.case(None, nontrivial=False, cls="long:loaded")
-        compare(ctx, case, exp, val, "long:load")
-    else:
-        ctx.case(None, nontrivial=False, cls="long:refused-as-invalid")
+    longest = max(len(v.encode("utf-8")) for _p, e in root.walk() for _k, v in e.attrs)
+    cls = ["long-attribute"] + (["long:senders"] if lists else []) + (["long:project-name"] if case.get("name_len") else [])
+    cls.append("long:max>255" if longest > 255 else "long:max<=255")
+    ctx.case(None, nontrivial=False, cls=cls, sample={"label": "long", "longest_attribute_octets": longest, "senders": [len(x) for x in lists], "name_octets": len(p["project"].encode("utf-8"))})
+    check_file(ctx, case, root, p["password"], exp, int(case.get("perm", 1)), [tuple(m) for m in case.get("mutations", [])], "long", {}, True)
 
 
 def check_real(ctx, name: str, perm: int, mutations: list, systematic: bool = False) -> None:
@@ -783,6 +852,15 @@ def selftest(ctx) -> None:
         back = kw.parse(kw.render(root, style))
         assert kw.signature(back, kw_hash("pä")) == root.get("Signature")
         assert back.get("Project") == "T & <t>"
+    # exact-length builders of the long-attribute domain
+    for t in LONG_TARGETS:
+        for seed in (0, 5, 999999):
+            lst = senders_for_length(t, seed)
+            assert len(set(lst)) == len(lst) and len(" ".join(kw.ia_str(i) for i in lst)) == t
+            nm = name_of_length("a & ü", t)
+            assert len(nm.encode("utf-8")) == t and len(nm) < t
+    long_el = kw.El("K", [("A", "x" * 300)])
+    assert kw.canonical(long_el, bytes(16), True)[:6] == bytes([1, 1, 0x4B, 1, 0x41, 300 & 0xFF])
     # every mutation kind produces a signed change on a rich tree
     with open(os.path.join(RESOURCES, "keyring.knxkeys"), "rb") as f:
         real = kw.parse(f.read())
@@ -802,7 +880,7 @@ def _shard(ctx, n_cases: int, real_names: list, n_real_mut: int) -> None:
             check_real(ctx, name, 12345 + ctx.shard_seed() % 1000, real_mutations(ctx.shard_seed(), n_real_mut), systematic=True)
         if n_cases:
             hyp_search(ctx, st_case, oracle, n_cases)
-            hyp_search(ctx, st_long, oracle, max(2, n_cases // 3), seed_salt=5)
+            hyp_search(ctx, st_long, oracle, max(3, n_cases // 2), seed_salt=5)
     finally:
         restore_patches(saved)
         cleanup()
